@@ -205,6 +205,13 @@ def gen_call(rng, spec, kinds):
         if rng.random() < 0.2:
             kw["take_best"] = False
         return ("solve", kw)
+    if k == "run":
+        # one of the scipy-based runs on the same merit function (they end with a tagged log row)
+        meth = ["simplex", "simplex", "ls_trf", "l_bfgs_b"]
+        if all(l is not None for l in spec["limits"]):
+            meth.append("direct")
+        m = rng.choice(meth)
+        return ("run", m, rng.choice([5, 15, 40]) if m in ("simplex", "direct") else rng.choice([3, 10]))
     if k == "reload":
         return ("reload", rng.randint(0, 30))
     if k == "reload_tag":
